@@ -17,6 +17,9 @@ CFG = {
         "(d) a RAISE(ABORT) trigger on the j-th INSERT INTO items of the target (first, last, random, beyond the end) during copy_to (recreate=false on a "
         "pre-provisioned file) and copy_profile; (e) copy_to / copy_store onto an existing store (empty, first or later profile non-empty, default profile "
         "missing, unrelated profile, recreate=true); (f) source whose configured default profile does not exist; (g) expired record in the target under a source identity; "
+        "(i) large values as compact specs (a profile of 6-12 records of 120-400 KiB: fewer than PAGE_SIZE rows carrying well over 1 MiB; a profile of PAGE_SIZE+1..+8 records of "
+        "40-70 KiB: the first page alone over 1 MiB and more rows after it), both kinds, through copy_profile / copy_to / copy_store — dumps compare values > 512 bytes by length + FNV-1a digest; "
+        "every dump is read with fetch_all and cross-checked against the paged Scan dump; "
         "(h) the shipped Indy fixture and Indy wallets written by the harness (RAW / ARGON2I_INT / ARGON2I_MOD, 0-64 items, both tag tables, non-dense ids). "
         "non-trivial = a copy case whose source holds > PAGE_SIZE live records in some profile, or >= 2 profiles, or that exercises a refusal / fault / existing "
         "target; an Indy case with >= 1 item; distinct = hash of the case"
